@@ -2,7 +2,7 @@
    the lemmas of Proofs.v / Code.v / SrcProofs.v / FProofs.v). *)
 From Coq Require Import Reals Lra QArith Qreals List.
 From Coq Require PrimFloat.
-From EsVerif.C08 Require Import Gen Model Spec Proofs Code SrcLib Src SrcProofs SrcLibF SrcF FProofs Cond.
+From EsVerif.C08 Require Import Gen Model Spec Proofs Code SrcLib Src SrcProofs SrcLibF SrcF FProofs Cond Cond2.
 Open Scope R_scope.
 
 Lemma code_constants_thm : 2 <= sphdist_thr /\ gcirc_clip_lo <= -1 /\ 1 <= gcirc_clip_hi.
@@ -109,3 +109,18 @@ Lemma float_zero_identical_thm :
   /\ (forall O ra dec, PrimFloat.is_nan (d2r_f ra) = false -> PrimFloat.is_nan (d2r_f dec) = false ->
      gcirc_f O ra dec ra dec = PrimFloat.zero).
 Proof. split; [exact sphdist_f_identical | exact gcirc_f_identical]. Qed.
+
+Lemma functions_agree_thm : forall ra1 dec1 ra2 dec2,
+  sphdist_code Deg Rad ra1 dec1 ra2 dec2 = gcirc_code ra1 dec1 ra2 dec2
+  /\ sphdist_src Deg Rad ra1 dec1 ra2 dec2 = gcirc_src ra1 dec1 ra2 dec2.
+Proof.
+  intros. rewrite sphdist_code_exact, gcirc_code_exact, sphdist_src_exact, gcirc_src_exact. split; reflexivity.
+Qed.
+
+Lemma branch_conditioning_thm :
+  (forall d d', 0 <= d -> 0 <= d' -> d * d <= sphdist_thr -> d' * d' <= sphdist_thr ->
+     Rabs (2 * asin (/ 2 * d) - 2 * asin (/ 2 * d')) <= 2001 / 100 * Rabs (d - d'))
+  /\ (forall u v, is_unit u -> is_unit v -> sphdist_thr <= nsq (vsub u v) -> nsq (cross u v) <= / 100)
+  /\ (forall s s', 0 <= s <= / 10 -> 0 <= s' <= / 10 ->
+     Rabs ((PI - asin s) - (PI - asin s')) <= 1006 / 1000 * Rabs (s - s')).
+Proof. split; [exact chord_branch_conditioning|]. split; [exact cross_branch_small | exact cross_branch_conditioning]. Qed.
